@@ -6,6 +6,9 @@ classes).  A postcondition hook wrapped around both ``mapfn`` methods judges *ev
 makes internally from rprob*/interp_xoprob); the remaining laws are judged by the reference model in
 pbmon/oracle/gmaplaws.py, which is written from the statement only.
 """
+import copy as pycopy
+import io
+
 import numpy
 
 from pbmon import boot  # noqa: F401  (must be first)
@@ -743,6 +746,11 @@ def case_map(ctx, c):
                     ctx.check("C11.roworder", O.agree(xo, xo2, 0.5)[0], "DenseGeneticMappableMatrix.interp_xoprob",
                               "result independent of the row order supplied", ricls, witness=dict(W2, first=xo, second=xo2), coords=coords)
 
+        # ---- the map's own congruence report (last: the call groups a map that was built with auto_group=False)
+        for m_ in (gm, gm2) if ok else (gm,):
+            if not judge_congruence(ctx, ctx.check, "C11.congruent", m_, tab, icls, coords, W):
+                break
+
 
 def run_xoprob(ctx, g, gm, gkind, kname, fn, qc, qp, tab, congruent, classes, coords, WQ, gscale, judge=True):
     """interp_xoprob on a grouped genotype matrix; returns vrnt_xoprob (or None when the call failed)."""
@@ -817,14 +825,25 @@ def hist_class(h, with_kind=False):
         base = "after %s a whole chromosome" % ("removing" if h["dropped_by"] == "remove" else "selecting away")
     else:
         base = {"construction": "freshly built", "remove": "after removing markers", "select": "after selecting markers",
-                "regenpos": "after re-assigning genetic positions", "order": "after reorder/sort/group only"}[h["last_edit"]]
+                "regenpos": "after re-assigning genetic positions", "order": "after reorder/sort/group only",
+                "discrepancies": "after removing discrepancies"}[h["last_edit"]]
     if h["rebuilt"]:
         base += " and rebuilding the spline"
+    if h.get("derived"):
+        base = "%s, %s" % (h["derived"], base)
     if with_kind and h["kind"] in NONLINEAR:
         base += " (non-linear spline kind)"
     if with_kind and h["fill"] != "extrapolate":
         base += " (array fill value)"
     return base
+
+
+def table_class(tab):
+    """Coarse class of a table for the congruence clauses."""
+    if not O.is_congruent(tab):
+        return "non-congruent map"
+    ties = any(g[i] == g[i + 1] for _, g in tab.values() for i in range(len(g) - 1))
+    return "congruent map with tied positions" if ties else "congruent map"
 
 
 def model_arrays(model):
@@ -833,18 +852,53 @@ def model_arrays(model):
             numpy.array([model[k] for k in keys], dtype=float))
 
 
-def judge_history(ctx, g, gm, h, model, orig_labels, coords, W):
-    """Judge the live map's answers against the reference model evaluated on its CURRENT table."""
-    icls = hist_class(h); kcls = hist_class(h, True)
-    bad_ = []
+def judge_congruence(ctx, check, clause, gm, tab, icls, coords, W):
+    """congruence() / is_congruent() against the definition: a chromosome is congruent when its genetic positions never
+    decrease along ascending physical position (equal consecutive positions = complete linkage are congruent).  Which
+    markers of an incongruent chromosome are blamed is left open: only 'some marker flagged <=> the chromosome has a
+    descent' is demanded.  The flags refer to the rows as stored after the call."""
+    S = lambda meth: site_of(gm, meth)  # noqa: E731
+    per = O.congruent_chromosomes(tab)
+    ok, mask = guarded(ctx, S("congruence"), icls, coords, lambda: gm.congruence(), W)
+    if not ok:
+        return False
+    flagged = None
+    try:
+        mk = numpy.asarray(mask); sc = numpy.asarray(gm.vrnt_chrgrp)
+        good = mk.dtype == bool and mk.shape == sc.shape and mk.ndim == 1 and len(mk) == sum(len(v[0]) for v in tab.values())
+        if good:
+            flagged = {c: not bool(numpy.all(mk[sc == c])) for c in per}
+            good = all(flagged[c] == (not per[c]) for c in per)
+    except Exception:
+        good = False
+    if not check(clause, good, S("congruence"), "a marker is flagged exactly on the chromosomes whose genetic positions decrease somewhere",
+                 icls, witness=dict(W, flags=mask, chromosome_has_descent={c: not v for c, v in per.items()}, chromosome_flagged=flagged),
+                 coords=coords):
+        return False
+    ok, ans = guarded(ctx, S("is_congruent"), icls, coords, lambda: gm.is_congruent(), W)
+    if not ok:
+        return False
+    return check(clause, bool(ans) == all(per.values()), S("is_congruent"), "is_congruent() == genetic positions non-decreasing along every chromosome",
+                 icls, witness=dict(W, got=bool(ans), chromosome_has_descent={c: not v for c, v in per.items()}), coords=coords)
 
-    def check(*a, **k):           # the first broken answer of a history is the mechanism; later ones are consequences
-        if bad_:
-            return False
-        r = ctx.check(*a, **k)
-        if not r:
-            bad_.append(a[0])
-        return r
+
+def same_table(obj, h, model):
+    """Does a map object (copy / re-import) hold exactly the rows of the reference table (any row order)?"""
+    try:
+        mc, mp, mg = model_arrays(model)
+        sc, sp, sg = numpy.asarray(obj.vrnt_chrgrp), numpy.asarray(obj.vrnt_phypos), numpy.asarray(obj.vrnt_genpos, dtype=float)
+        o = numpy.lexsort((sp, sc))
+        ok = len(sc) == len(mc) and numpy.array_equal(sc[o], mc) and numpy.array_equal(sp[o], mp) and O.agree(sg[o], mg, O.scale_of(mg))[0]
+        if ok and hasattr(obj, "vrnt_stop"):
+            ok = numpy.array_equal(numpy.asarray(obj.vrnt_stop)[o], numpy.array([h["stopm"][(int(a), int(b))] for a, b in zip(mc, mp)]))
+        return bool(ok)
+    except Exception:
+        return False
+
+
+def history_state(ctx, check, gm, h, model, coords, W):
+    """Stored table of the live map == the reference table after the steps so far (clause C11.history.state)."""
+    icls = hist_class(h)
     S = lambda meth: site_of(gm, meth)  # noqa: E731
     mc, mp, mg = model_arrays(model)
     tab = O.table(mc, mp, mg)
@@ -869,6 +923,27 @@ def judge_history(ctx, g, gm, h, model, orig_labels, coords, W):
               "stored table == the edited table (sorted, with matching run metadata when grouped)", icls,
               witness=dict(WH, stored_chr=gm.vrnt_chrgrp, stored_phys=gm.vrnt_phypos, stored_gen=gm.vrnt_genpos,
                            grouped=bool(gm.is_grouped())), coords=coords)
+    return st_ok
+
+
+def judge_history(ctx, g, gm, h, model, orig_labels, coords, W):
+    """Judge the live map's answers against the reference model evaluated on its CURRENT table."""
+    icls = hist_class(h); kcls = hist_class(h, True)
+    bad_ = []
+
+    def check(*a, **k):           # the first broken answer of a history is the mechanism; later ones are consequences
+        if bad_:
+            return False
+        r = ctx.check(*a, **k)
+        if not r:
+            bad_.append(a[0])
+        return r
+    S = lambda meth: site_of(gm, meth)  # noqa: E731
+    mc, mp, mg = model_arrays(model)
+    tab = O.table(mc, mp, mg)
+    gscale = O.scale_of(mg)
+    WH = dict(W, history=list(h["log"]), current_chr=mc, current_phys=mp, current_gen_M=mg)
+    st_ok = history_state(ctx, check, gm, h, model, coords, W)
     if not st_ok or not h["fresh"]:
         return st_ok
     linear = h["kind"] in ("linear", "slinear") and h["fill"] == "extrapolate"
@@ -1014,6 +1089,7 @@ def case_history(ctx, c):
                 ops += ["remove_markers", "select_markers"]
             if h["fresh"]:
                 ops += ["sibling"]
+            ops += ["observe", "observe", "observe", "discrepancies"]
             op = "build_spline" if (not h["fresh"] and g.random() < 0.6) else str(g.choice(ops))
             icls = hist_class(h)
             if op in ("remove_chr", "select_chr", "remove_markers", "select_markers"):
@@ -1051,7 +1127,7 @@ def case_history(ctx, c):
                 if h["last_edit"] == "construction":
                     h["last_edit"] = "order"
             elif op == "regenpos":
-                mode = int(g.integers(0, 3))
+                mode = int(g.integers(0, 4))
                 newm = {}
                 for lab in sorted(per):
                     keys = sorted(k for k in model if k[0] == lab)
@@ -1059,12 +1135,15 @@ def case_history(ctx, c):
                         vals = numpy.cumsum(g.uniform(0, 0.3, len(keys)))
                     elif mode == 1:    # stretched and shifted
                         vals = numpy.array([model[k] for k in keys]) * 2.0 + 0.125
+                    elif mode == 3:    # congruent with runs of completely linked markers (exact ties)
+                        vals = numpy.cumsum(g.choice([0.0, 0.0, 0.0625, 0.25], len(keys)))
                     else:              # shuffled (usually non-congruent)
                         vals = g.permutation(numpy.array([model[k] for k in keys]))
                     newm.update({k: float(v) for k, v in zip(keys, vals)})
                 arr = numpy.array([newm[(int(a), int(b))] for a, b in zip(cur_c, cur_p)], dtype=float)
                 cm = g.random() < 0.4
-                val = (arr * 100.0, "cM") if cm else (arr if g.random() < 0.5 else (arr, "M"))
+                uname = str(g.choice(["cM", "centiMorgans"] if cm else ["M", "Morgans"]))
+                val = (arr * 100.0, uname) if cm else (arr if g.random() < 0.5 else (arr, uname))
                 h["log"].append("vrnt_genpos = new positions (%s)" % ("cM tuple" if cm else "M"))
 
                 def setg():
@@ -1074,6 +1153,117 @@ def case_history(ctx, c):
                     return
                 model.clear(); model.update(newm)
                 h["fresh"] = False; h["last_edit"] = "regenpos"
+            elif op == "observe":
+                # read-only uses of the live map (export, copy, congruence report), once or twice in a row: the live map keeps
+                # its table; a copy / a re-import of the export in the units it was written in holds the same table and
+                # (half of the time) takes the live map's place for the rest of the history
+                ext = clsname == "ExtendedGeneticMap"
+                what = str(g.choice(["to_pandas", "to_pandas", "to_csv", "copy", "congruence"] + (["to_egmap"] if ext else [])))
+                units = str(g.choice(["cM", "cM", "centiMorgans", "M", "Morgans"]))
+                col = str(g.choice(["cM", "gpos", "M"])); sep = str(g.choice([",", "\t", ";"]))
+                times = 1 if g.random() < 0.55 else 2
+                swap = g.random() < 0.5
+                variant = int(g.integers(0, 4))
+                back = None; backname = None
+                if what == "to_pandas" and variant == 0:
+                    desc = "to_pandas()"; backname = "from_pandas"
+                    export = lambda: gm.to_pandas()  # noqa: E731
+                    back = lambda df: cls.from_pandas(df, vrnt_genpos_units="cM")  # noqa: E731
+                elif what == "to_pandas":
+                    desc = "to_pandas(units=%s)" % units; backname = "from_pandas"
+                    export = lambda: gm.to_pandas(vrnt_genpos_col=col, vrnt_genpos_units=units)  # noqa: E731
+                    back = lambda df: cls.from_pandas(df, vrnt_genpos_col=col, vrnt_genpos_units=units)  # noqa: E731
+                elif what == "to_csv":
+                    desc = "to_csv(units=%s)" % units; backname = "from_csv"
+
+                    def export():
+                        b = io.StringIO(); gm.to_csv(b, vrnt_genpos_col=col, vrnt_genpos_units=units, sep=sep)
+                        return b.getvalue()
+                    back = lambda txt: cls.from_csv(io.StringIO(txt), vrnt_genpos_col=col, vrnt_genpos_units=units, sep=sep)  # noqa: E731
+                elif what == "to_egmap":
+                    desc = "to_egmap()"; backname = "from_egmap"
+
+                    def export():
+                        b = io.StringIO(); gm.to_egmap(b)
+                        return b.getvalue()
+                    back = lambda txt: cls.from_egmap(io.StringIO(txt))  # noqa: E731
+                elif what == "copy":
+                    desc = ["copy()", "deepcopy()", "__copy__()", "__deepcopy__()"][variant]
+                    export = [lambda: gm.copy(), lambda: gm.deepcopy(), lambda: pycopy.copy(gm), lambda: pycopy.deepcopy(gm)][variant]
+                else:
+                    desc = "congruence()"; export = None
+                h["log"].append(desc if times == 1 else desc + " twice")
+                meth = desc.split("(")[0]
+                WO = dict(W, history=list(h["log"]))
+                res = None
+                if export is None:
+                    ctab = O.table(*model_arrays(model))
+                    for _ in range(times):
+                        if not judge_congruence(ctx, ctx.check, "C11.history.congruent", gm, ctab, table_class(ctab), coords, WO):
+                            return
+                else:
+                    for _ in range(times):
+                        ok, res = guarded(ctx, S(meth), icls, coords, export, WO)
+                        if not ok:
+                            return
+                # the live map is untouched by being read
+                if not history_state(ctx, ctx.check, gm, h, model, coords, W):
+                    return
+                if export is not None:
+                    if back is not None:
+                        ok, der = guarded(ctx, "%s.%s" % (clsname, backname), icls, coords, lambda: back(res), WO)
+                        if not ok:
+                            return
+                        dsite = "%s -> %s" % (S(meth), backname); dcls = "re-import of the map's own export"
+                    else:
+                        der = res; dsite = S(meth); dcls = "copy of the map"
+                    d_ok = type(der) is type(gm) and der is not gm and same_table(der, h, model)
+                    if not ctx.check("C11.history.derived", d_ok, dsite, "derived map holds the rows of the map it was made from", dcls,
+                                     witness=dict(WO, derived_type=type(der).__name__, derived_chr=getattr(der, "vrnt_chrgrp", None),
+                                                  derived_phys=getattr(der, "vrnt_phypos", None), derived_gen=getattr(der, "vrnt_genpos", None),
+                                                  current_table=model_arrays(model)), coords=coords):
+                        return
+                    if swap:
+                        gm = der
+                        h["log"].append("live map := that %s" % ("copy" if back is None else "re-import"))
+                        if back is None:
+                            h["derived"] = "copy"
+                        else:      # a new object with its own freshly built default spline
+                            h.update(derived="re-imported export", dropped_by=None, last_edit="construction", rebuilt=False, fresh=True,
+                                     kind="linear", fill="extrapolate")
+                        ctx.sumnote("histories continued on a %s" % ("copy" if back is None else "re-import"))
+            elif op == "discrepancies":
+                h["log"].append("remove_discrepancies()")
+                tab0 = O.table(*model_arrays(model)); per0 = O.congruent_chromosomes(tab0); tcls = table_class(tab0)
+                ok, _ = guarded(ctx, S("remove_discrepancies"), icls, coords, lambda: gm.remove_discrepancies(), dict(W, history=list(h["log"])))
+                if not ok:
+                    return
+                removed = None
+                try:
+                    sc_, sp_, sg_ = numpy.asarray(gm.vrnt_chrgrp), numpy.asarray(gm.vrnt_phypos), numpy.asarray(gm.vrnt_genpos, dtype=float)
+                    rows = {(int(a), int(b)): float(x) for a, b, x in zip(sc_, sp_, sg_)}
+                    t_ = O.tol(O.scale_of(list(model.values())))
+                    good = len(rows) == len(sc_) and all(k in model and abs(model[k] - v) <= t_ for k, v in rows.items())
+                    removed = sorted(k for k in model if k not in rows)
+                    good = good and all(not per0[k[0]] for k in removed)
+                except Exception:
+                    good = False
+                if not ctx.check("C11.history.discrepancies", good, S("remove_discrepancies"),
+                                 "remaining rows are unchanged rows of the table; none is removed from a chromosome whose positions never decrease",
+                                 tcls, witness=dict(W, history=list(h["log"]), table_before=model_arrays(model), removed_rows=removed,
+                                                    stored_chr=gm.vrnt_chrgrp, stored_phys=gm.vrnt_phypos, stored_gen=gm.vrnt_genpos), coords=coords):
+                    return
+                if removed:
+                    for k in removed:
+                        model.pop(k)
+                    h["fresh"] = False; h["last_edit"] = "discrepancies"
+                    left = {}
+                    for k in model:
+                        left[k[0]] = left.get(k[0], 0) + 1
+                    if len(left) < len(per0) or min(left.values()) < 2:     # fewer than two markers on a chromosome: outside the quantifier
+                        ctx.sumnote("histories ended by remove_discrepancies leaving < 2 markers on a chromosome")
+                        history_state(ctx, ctx.check, gm, h, model, coords, W)
+                        return
             elif op == "build_spline":
                 m = min(per.values())
                 kinds = ["linear"] * 6 + ["slinear", "nearest", "previous"] + (["quadratic"] if m >= 3 else []) + (["cubic"] if m >= 4 else [])
